@@ -90,6 +90,7 @@ func (n *NSQD) lookupLoop() {
 
 	// for announcements, lookupd determines the host automatically
 	ticker := time.NewTicker(15 * time.Second)
+	verifAdjustTicker(ticker)
 	defer ticker.Stop()
 	for {
 		if connect {
